@@ -32,7 +32,7 @@ Core Lean only.
 namespace Claripy.VSA.Bal
 open Claripy.VSA
 
-deriving instance DecidableEq for BV, BExp
+-- (decidable equality of `BV` / `BExp` is derived with the types, in `Backend.lean`)
 
 /-- why the model stops: a Python exception that leaves `constraint_to_si`, or an input outside the fragment -/
 inductive Stop where
